@@ -24,6 +24,7 @@ import (
 
 	ledger "github.com/formancehq/ledger/internal"
 	"github.com/formancehq/ledger/internal/storage/bucket"
+	systemstore "github.com/formancehq/ledger/internal/storage/system"
 	"github.com/formancehq/ledger/internal/verif/minisql"
 )
 
@@ -51,6 +52,7 @@ type Server struct {
 	WaitWhenBlocked bool
 	BlockedTimeout  time.Duration
 	wake            chan struct{}
+	sched           *Scheduler
 	// Hook, when set, is called before a statement is sent to lpg and may block
 	// (deterministic scheduler). It receives the session id and the SQL.
 	Hook func(session int, sql string)
@@ -130,6 +132,13 @@ func (s *Server) InjectFault(nth int, kind string) {
 	s.faults[s.issued+nth-1] = kind
 }
 
+// ClearFaults forgets faults that were injected but not reached.
+func (s *Server) ClearFaults() {
+	s.mu.Lock()
+	defer s.mu.Unlock()
+	s.faults = map[int]string{}
+}
+
 func (s *Server) takeFault() string {
 	s.mu.Lock()
 	defer s.mu.Unlock()
@@ -195,7 +204,23 @@ func errCode(err error) string {
 	return "error"
 }
 
-func (s *Server) exec(ctx context.Context, c *conn, st *minisql.Stmt, q string) (*Result, error) {
+func (s *Server) exec(ctx context.Context, c *conn, st *minisql.Stmt, q string) (res *Result, err error) {
+	s.mu.Lock()
+	sch := s.sched
+	s.mu.Unlock()
+	var task *schedTask
+	if sch != nil {
+		if task = sch.taskOf(ctx, c); task != nil {
+			sch.yield(task, c.id, q)
+			defer func() {
+				r := "ok"
+				if err != nil {
+					r = "error:" + errCode(err)
+				}
+				sch.stmtDone(task, r)
+			}()
+		}
+	}
 	if s.Hook != nil {
 		s.Hook(c.id, q)
 	}
@@ -221,6 +246,14 @@ func (s *Server) exec(ctx context.Context, c *conn, st *minisql.Stmt, q string) 
 		}
 		if b, ok := resp["blocked"]; ok {
 			on := fmt.Sprint(b)
+			if task != nil {
+				if !sch.blocked(task, on) {
+					_, _ = s.lpg.call(map[string]any{"k": "abort", "s": c.id})
+					return nil, errStuck(on)
+				}
+				req["retry"] = true
+				continue
+			}
 			if s.OnBlocked == nil && s.WaitWhenBlocked {
 				select {
 				case <-wake:
@@ -527,4 +560,23 @@ func (s *Server) WriteLog(path string) error {
 		}
 	}
 	return nil
+}
+
+// CreateLedgerInSystem does what the storage driver's CreateLedger does minus the
+// migrator: insert the `_system.ledgers` row through the REAL system store (which
+// allots l.ID from `_system.ledger_sequence` and sets l.AddedAt), then install
+// the bucket schema (once) and run the real bucket.AddLedger.
+func (s *Server) CreateLedgerInSystem(ctx context.Context, l *ledger.Ledger) error {
+	if l.Bucket == "" {
+		return errors.New("pgfake: ledger without bucket")
+	}
+	if err := s.EnsureBucket(l.Bucket); err != nil {
+		return err
+	}
+	return s.bundb.RunInTx(ctx, nil, func(ctx context.Context, tx bun.Tx) error {
+		if err := systemstore.New(tx).CreateLedger(ctx, l); err != nil {
+			return err
+		}
+		return bucket.NewDefault(noopTracer(), l.Bucket).AddLedger(ctx, tx, *l)
+	})
 }
